@@ -187,10 +187,21 @@ def classes(case):
         out += tree_classes(node)
         if case['k'] == 'rearrange' and _varied_node(node, roles_for(case['model']), case['key']):
             out.append('node-with>=3-branches-2-keys')
+        import re as _re
+        stems = {}
+        for r, x in node[1]:
+            m_ = _re.fullmatch(r'(.*?)([0-9]*)', r.split('~')[0])
+            stems.setdefault(m_.group(1), set()).add(m_.group(2))
+        if any(len({int(d or 0) for d in ds}) < len(ds) for ds in stems.values()):
+            out.append('sibling-roles-with-tied-numeric-suffix')
     return out
 
 
 WIDE_ROLES = [':consist-of', ':prep-on-behalf-of', ':prep-out-of', ':op100', ':op20', ':op1', ':op2', ':op9', ':op10', ':op11', ':ARG0', ':ARG1', ':ARG2', ':x2y9', ':x2y10', ':mod', ':domain', ':name', ':']
+
+# same stem, numeric suffixes that tie or nearly tie: bare stem, zero, zero-padded
+FAMILIES = [[':op', ':op0', ':op00', ':op01', ':op1', ':op10', ':op2'], [':ARG', ':ARG0', ':ARG00', ':ARG1', ':ARG01'],
+            [':snt1', ':snt01', ':snt010', ':snt11', ':snt2', ':snt'], [':x2y', ':x2y0', ':x2y9', ':x2y10', ':x02y10']]
 
 
 @st.composite
@@ -205,7 +216,8 @@ def _cases(draw, large=False):
         j = draw(trees.wf_trees(spec, max_nodes=25 if large else 6, extra_roles=WIDE_ROLES, wide=16 if large else 3))
         # widen: the generator adds up to 3 extras per node; rearrange needs wide nodes, so graft extra attributes
         R = roles_for(spec)
-        extra = draw(st.lists(st.tuples(st.sampled_from(WIDE_ROLES), st.sampled_from(['1', '"s"', 'q', '-'])), max_size=6))
+        rpool = WIDE_ROLES if draw(st.integers(0, 2)) else FAMILIES[draw(st.integers(0, len(FAMILIES) - 1))]
+        extra = draw(st.lists(st.tuples(st.sampled_from(rpool), st.sampled_from(['1', '"s"', 'q', '-'])), max_size=6))
         have = {(r.split('~')[0], x) for r, x in j[1] if isinstance(x, str)}
         for r, x in extra:
             if R.is_canonical_inversion(r) and (r, x) not in have:
